@@ -609,6 +609,20 @@ type oidcCase struct {
 	Tag  string  `json:"tag,omitempty"`
 }
 
+// valsAround writes the header values without repeating the (long) token: a value containing
+// the token is written as (1 before after), any other as (0 value).
+func valsAround(vals []string, tok string) rec.V {
+	vs := make([]rec.V, len(vals))
+	for i, v := range vals {
+		if j := strings.Index(v, tok); tok != "" && j >= 0 {
+			vs[i] = rec.L(rec.I(1), rec.S(v[:j]), rec.S(v[j+len(tok):]))
+		} else {
+			vs[i] = rec.L(rec.I(0), rec.S(v))
+		}
+	}
+	return rec.L(vs...)
+}
+
 func runOidc(w *rec.Writer, e *issuerEnv, c oidcCase) {
 	aud, _ := hex.DecodeString(c.Cfg.Audience)
 	a := e.authenticator(c.Cfg)
@@ -622,7 +636,7 @@ func runOidc(w *rec.Writer, e *issuerEnv, c oidcCase) {
 	w.Case(c, rec.I(2),
 		rec.S(e.mainIssuer(c.Cfg)), rec.LS(unhexAll(c.Cfg.Aliases)), rec.B(aud),
 		rec.LS(unhexAll(c.Cfg.Subjects)), rec.LS(unhexAll(c.Cfg.CIC)),
-		rec.I64(now), rec.LS(vals),
+		rec.I64(now), valsAround(vals, tok),
 		rec.L(rec.L(rec.S(tok), structure)),
 		rec.I(o.class), rec.S(o.subject), rec.S(o.clientID), rec.LS(o.scopes))
 	w.Stat("oidc.cases", 1)
